@@ -6,10 +6,12 @@ spec:   spec/StaticRouteOps.tla   property layer (PVerdict) + design layer (Expe
         spec/StaticRouteTrace.tla trace judge
 legs:   M  exhaustive TLC: remainders assembled from a traversal grammar of tokens x fallback
            configurations; every (size, Range, If-Modified-Since) combination; conditional requests under every
-           process time zone (DecisionIndependentOfZone); the wrong designs must fail
+           process time zone (DecisionIndependentOfZone); Range positions as magnitude classes with a symbolic
+           Huge (MC_StaticRouteHuge.cfg); the wrong designs must fail
         A  every request of the small instances, with the outcome TLC computed for it, replayed on the
            real static route (raw WSGI and ASGI drivers, raw and percent-encoded spellings, a real
-           temp tree built from the specification's file-system constant, open() audit)
+           temp tree built from the specification's file-system constant, open() audit); cases with a Huge
+           position once per concrete numeral (2^31 .. 10^30)
         B  seeded random requests beyond the bound (longer traversal paths, name mutations, larger
            Range numbers) recorded from the real route and judged by TLC (StaticRouteTrace)
 """
@@ -44,7 +46,16 @@ META = {
                   'represented by atoms and rendered by the harness (trusted: atom rendering, urllib unquote in the '
                   'drivers, os.path.realpath, re for Content-Range, email.utils.formatdate). Attempted opens count '
                   'as opens. Error-response bodies are not modelled. Interpreter-internal opens of .py/.pyc files '
-                  '(lazy imports) are ignored and counted.',
+                  '(lazy imports) are ignored and counted. Range positions of any magnitude: a position is a small number '
+                  '(exhaustive 0..7 on sizes 0..6) or the symbolic class Huge (two ranks, so every order of two Huge '
+                  'numbers occurs); TLC decides Huge first / last / both / suffix on files of size 0, 1, 2, 3, 6 and a missing '
+                  'file (MC_StaticRouteHuge.cfg: DecisionDependsOnlyOnMagnitudeClass, HugeDecidedAsJustBeyond, '
+                  'HugeNeverFails, HugeFirstUnsatisfiable, HugeLastClamped, HugeSuffixWhole; wrong design BigPositions = '
+                  'FALSE, seek before compare, fails five of them). Every such case is replayed with Huge written as each '
+                  'of 2^31, 2^32, 2^63-1, 2^63, 10^19, 2^64, 10^20, 10^25, 10^30 (leading zeros, WSGI, ASGI on a '
+                  'third of them in quick / all in thorough); random requests draw from 29 numerals up to 10^100. Not '
+                  'covered: numerals longer than the interpreter\'s int-from-string limit (4300 digits), signs, '
+                  'white space inside the range-spec.',
 }
 
 from engine import drivers
